@@ -575,9 +575,16 @@ func (m *Model) applyEnqueue(envs []EnvSpec, obs *Obs, post map[string]*Msg, bat
 			collides = true
 		}
 	}
+	// count: what the backend holds against max_depth - queued + leased, and on the memory backend with delivered
+	// retention also the retained delivered rows (documented: docs/configuration.md "delivered_retention"); under
+	// drop_oldest that backend evicts queued rows until the guarded count fits.
+	count := active
+	if c.DeliveredCountsAgainstDepth && c.DeliveredMaxAge > 0 {
+		count += delivered
+	}
 	needed := 0
-	if c.MaxDepth > 0 && active+n > c.MaxDepth {
-		needed = active + n - c.MaxDepth
+	if c.MaxDepth > 0 && count+n > c.MaxDepth {
+		needed = count + n - c.MaxDepth
 	}
 	fullJustified := needed > 0 && (!c.DropOldest || queued < needed)
 	if c.DeliveredCountsAgainstDepth && c.MaxDepth > 0 && c.DeliveredMaxAge > 0 && active+delivered+n > c.MaxDepth {
@@ -646,11 +653,11 @@ func (m *Model) applyEnqueue(envs []EnvSpec, obs *Obs, post map[string]*Msg, bat
 				return fmt.Sprintf("enqueue removed %d message(s) without drop_oldest", len(gone))
 			}
 			lo := needed
-			if active >= c.MaxDepth+1 && !batch {
+			if count >= c.MaxDepth+1 && !batch {
 				lo = 1 // single enqueue above the limit (after operator requeue) may evict just one
 			}
 			if needed > 0 && (len(gone) < lo || len(gone) > needed) {
-				return fmt.Sprintf("stored although active=%d max_depth=%d: evicted %d, needed %d", active, c.MaxDepth, len(gone), needed)
+				return fmt.Sprintf("stored although count=%d max_depth=%d: evicted %d, needed %d", count, c.MaxDepth, len(gone), needed)
 			}
 			if needed == 0 && len(gone) > 0 {
 				return fmt.Sprintf("evicted %d message(s) although the queue was not full", len(gone))
